@@ -21,6 +21,8 @@ from __future__ import annotations
 
 import time
 import traceback
+import os
+import sys
 import z3
 
 from . import sym
@@ -410,7 +412,15 @@ def is_mutable_cls(cls):
     return any(k.name == 'BitArray' for k in cls.mro)
 
 
-def alias_goals(result, args, kwargs):
+def entry_snapshot(args, kwargs):
+    """(highest object id so far, {id(bitstring): its store}) taken when the call starts"""
+    objs = []
+    for a in list(args) + list(kwargs.values()):
+        _bits_objs(a, objs)
+    return Obj._ids, {id(a): a.attrs.get('_bitstore') for a in objs}
+
+
+def alias_goals(result, args, kwargs, entry=None, cached_returns=()):
     """value isolation: two distinct bitstring objects of which at least one is mutable never share a store or a
     buffer; a mutable object's store is not flagged immutable (i.e. possibly shared / cached); a caller-supplied or
     returned raw buffer is never the live buffer of a bitstring"""
@@ -427,6 +437,10 @@ def alias_goals(result, args, kwargs):
             out.append(('own:mutable-object-holds-a-store-flagged-immutable', False, f'{a.cls.name}'))
         if is_mutable_cls(a.cls) and getattr(sa, 'cached', False):
             out.append(('own:mutable-object-holds-a-cached-store', False, f'{a.cls.name}'))
+        if entry is not None and is_mutable_cls(a.cls) and isinstance(sa, Obj) and sa.oid <= entry[0] \
+                and not any(sa is st for st in entry[1].values()):
+            # neither created by this call nor owned by an argument: a module-level constant or otherwise long-lived store
+            out.append(('own:mutable-object-holds-a-store-that-outlives-the-call', False, f'{a.cls.name}'))
         for b in objs[i + 1:]:
             sb = b.attrs.get('_bitstore')
             if sb is None or not (is_mutable_cls(a.cls) or is_mutable_cls(b.cls)):
@@ -441,6 +455,12 @@ def alias_goals(result, args, kwargs):
             sa = a.attrs.get('_bitstore')
             if sa is not None and sa.attrs.get('_bitarray') is r:
                 out.append(('own:raw-buffer-of-a-bitstring-exposed-or-adopted', False, a.cls.name))
+    if entry is not None and isinstance(result, Obj) and result.cls.name == 'BitStore' and result.oid <= entry[0] \
+            and not result.attrs.get('immutable') and not any(result is a for a in list(args) + list(kwargs.values())):
+        out.append(('own:returned-store-outlives-the-call-and-is-not-flagged-immutable', False, ''))
+    for q, v in cached_returns:
+        if isinstance(v, Obj) and v.cls.name == 'BitStore' and v.attrs.get('immutable') is not True:
+            out.append(('own:memoised-result-not-flagged-immutable', False, q))
     if not out:
         out.append(('own', True))
     return out
@@ -610,6 +630,8 @@ def _one_path(interp, c, fn, shape, ctx, clauses, stats):
     if ctx.check() == 'unsat':
         raise Infeasible()
     # ---- the real body
+    entry = entry_snapshot(args1, kw1)
+    interp.cached_returns = []
     interp.under_verification = c.target
     interp.contracts = {q: k for q, k in REGISTRY.items() if k.spec is not None and q != c.target and '@' not in q
                         and not getattr(k, 'inline', False)}
@@ -619,6 +641,7 @@ def _one_path(interp, c, fn, shape, ctx, clauses, stats):
             out1 = _drain(interp, out1.value)
     finally:
         interp.under_verification = None
+    cached_returns, interp.cached_returns = interp.cached_returns, None
     # ---- the specification
     goals = Goals()
     if c.spec is not None:
@@ -653,7 +676,7 @@ def _one_path(interp, c, fn, shape, ctx, clauses, stats):
             # aliasing: for mutable classes and for streams (which carry a position) "returns self" vs
             # "returns a new object" is observable
             v1, v2 = out1.value, out2.value
-            if isinstance(v1, Obj) and isinstance(v2, Obj) and any(k.name in ('BitArray', 'ConstBitStream') for k in v1.cls.mro):
+            if isinstance(v1, Obj) and isinstance(v2, Obj) and any(k.name in ('BitArray', 'ConstBitStream', 'BitStore') for k in v1.cls.mro):
                 i1 = next((i for i, a in enumerate(args1) if a is v1), -1)
                 i2 = next((i for i, a in enumerate(args2) if a is v2), -1)
                 goals.add('result:identity', i1 == i2)
@@ -671,7 +694,7 @@ def _one_path(interp, c, fn, shape, ctx, clauses, stats):
             interp.contracts = saved
     # ---- ownership / aliasing (C04): concrete identity facts of this path
     if out1.kind == 'ret':
-        for item in alias_goals(out1.value, args1, kw1):
+        for item in alias_goals(out1.value, args1, kw1, entry, cached_returns):
             goals.items.append(item)
     # ---- discharge
     stats['cover'] += 1
@@ -686,6 +709,10 @@ def _one_path(interp, c, fn, shape, ctx, clauses, stats):
             cr.unknown += 1
             continue
         r, m = ctx.valid(g)
+        if r != 'unsat' and os.environ.get('PYVC_DEBUG'):
+            print(f'[debug] {c.qualname}[{shape.name}] {label} {detail} -> {r}; trail={ctx.trail}', file=sys.stderr)
+            if os.environ.get('PYVC_DEBUG') == '2':
+                print('[debug-goal]', (g.term if hasattr(g, 'term') else g), file=sys.stderr)
         if r == 'unsat':
             cr.unsat += 1
         elif r == 'sat':
